@@ -164,6 +164,11 @@ type Exec struct {
 	cstack       []*ssa.Function
 	pcSet        map[int]bool
 	fmtDepth     int
+	// model: an assignment of the input variables known to satisfy the current path condition
+	// (nil: none). Used to avoid solver calls: a condition that evaluates to v under the model is
+	// feasible with outcome v, only the opposite outcome needs a query.
+	model     map[int]uint64
+	modelHits int
 }
 
 func (x *Exec) end(kind endKind, format string, args ...any) {
@@ -203,6 +208,11 @@ func (x *Exec) addPC(c *Term) {
 			x.end(endAssumeFalse, "constraint false")
 		}
 		return
+	}
+	if x.model != nil {
+		if v, ok := x.evalModel(c); !ok || v == 0 {
+			x.model = nil
+		}
 	}
 	x.pc = append(x.pc, c)
 	if x.pcSet == nil {
@@ -249,7 +259,31 @@ func (x *Exec) branch(c *Term) bool {
 		x.trace = append(x.trace, Decision{DecBranch, 0})
 		return false
 	}
-	rt := x.check(c, false)
+	if v, ok := x.evalModel(c); ok {
+		// the model decides one outcome; only the other one needs the solver
+		x.modelHits++
+		side := v != 0
+		sideT, otherT := c, x.st.Not(c)
+		if !side {
+			sideT, otherT = otherT, sideT
+		}
+		ro := x.check(otherT, false)
+		if ro == Unknown {
+			x.end(endUnsupported, "solver returned unknown on a branch condition")
+		}
+		sv := uint64(0)
+		if side {
+			sv = 1
+		}
+		if ro == Sat {
+			sib := append(append([]Decision{}, x.trace...), Decision{DecBranch, 1 - sv})
+			x.pending = append(x.pending, sib)
+		}
+		x.trace = append(x.trace, Decision{DecBranch, sv})
+		x.addPC(sideT)
+		return side
+	}
+	rt := x.checkModel(c)
 	if rt == Unknown {
 		x.end(endUnsupported, "solver returned unknown on a branch condition")
 	}
@@ -276,6 +310,51 @@ func (x *Exec) branch(c *Term) bool {
 	x.addPC(c)
 	return true
 }
+
+// evalModel evaluates c under the cached model (variables that the solver has not seen yet are
+// unconstrained and default to zero).
+func (x *Exec) evalModel(c *Term) (uint64, bool) {
+	if x.model == nil || noModelCache {
+		return 0, false
+	}
+	return x.st.evalTermDefault(c, x.model)
+}
+
+// checkModel decides pc ∧ extra like check and, when satisfiable, caches the solver's model of the
+// input variables (it satisfies pc ∧ extra).
+func (x *Exec) checkModel(extra *Term) SatResult {
+	if noModelCache {
+		return x.check(extra, false)
+	}
+	if len(x.injective) > 0 {
+		x.flushInjectivity()
+	}
+	x.solver.AssertPC(x.pc)
+	if extra != nil {
+		x.solver.define(extra)
+	}
+	var vars []*Term
+	for _, v := range x.st.vars {
+		if v.w <= 64 && (x.solver.defined[v.id]) {
+			vars = append(vars, v)
+		}
+	}
+	r, mv, err := x.solver.CheckModel(x.pc, extra, vars)
+	if err != nil {
+		x.end(endUnsupported, "solver error: %v", err)
+	}
+	x.model = nil
+	if r == Sat && len(mv) == len(vars) {
+		m := make(map[int]uint64, len(vars))
+		for i, v := range vars {
+			m[v.id] = mv[i].lo
+		}
+		x.model = m
+	}
+	return r
+}
+
+var noModelCache = os.Getenv("SYMGO_NOMODELCACHE") != ""
 
 // concretize enumerates the feasible values of a symbolic integer (decision point).
 func (x *Exec) concretize(t *Term, what string) uint64 {
